@@ -12,17 +12,34 @@ import (
 // handlerScenario: every combination of nil / fresh handler for ObserveOn and SubscribeOn; the same
 // MonadIO is subscribed `subs` times; its effect returns a different value on every evaluation.
 func handlerScenario(ob, sub bool, subs int, subCap int, bound int) *vsched.Scenario {
+	return slowHandlerScenario(ob, sub, subs, subCap, 0, bound)
+}
+
+// slowHandlerScenario: as handlerScenario, and every effect / OnNext keeps its handler busy for `busy` of (virtual) time
+// while the next subscriptions are already posted behind it.
+func slowHandlerScenario(ob, sub bool, subs int, subCap int, busy time.Duration, bound int) *vsched.Scenario {
 	fam := fmt.Sprintf("handlers-ob%v-sub%v", ob, sub)
+	name := fmt.Sprintf("handlers/observeOn=%v/subscribeOn=%v/subscriptions%d/subCap%d", ob, sub, subs, subCap)
+	if busy > 0 {
+		fam += "-slow"
+		name += fmt.Sprintf("/busy-%v", busy)
+	}
 	return &vsched.Scenario{
-		Name:  fmt.Sprintf("handlers/observeOn=%v/subscribeOn=%v/subscriptions%d/subCap%d", ob, sub, subs, subCap),
-		Bound: bound,
+		Name:    name,
+		Bound:   bound,
+		IdleGap: int64(3 * time.Hour),
 		Body: func() {
 			n := 0
 			m := fpgo.MonadIONewGenerics(func() int {
 				n++
 				vsched.Event("effect", n, vsched.ThreadName())
 				vsched.Yield()
-				return n * 11
+				k := n
+				if busy > 0 {
+					time.Sleep(busy)
+				}
+				vsched.Event("effect-end", k)
+				return k * 11
 			})
 			vsched.Event("built", n)
 			var h1, h2 *fpgo.HandlerDef
@@ -41,13 +58,33 @@ func handlerScenario(ob, sub bool, subs int, subCap int, bound int) *vsched.Scen
 				i := i
 				m.Subscribe(fpgo.Subscription[int]{OnNext: func(v int) {
 					vsched.Event("onnext", i, v, vsched.ThreadName())
+					if busy > 0 {
+						time.Sleep(busy)
+					}
 				}})
+			}
+			if busy > 0 {
+				time.Sleep(time.Duration(4*subs) * busy)
 			}
 		},
 		Check: func(r *vsched.Result) []vsched.Failure {
 			fs := e1.Basic("C11", fam, r, nil)
 			if len(r.Panics) > 0 {
 				return fs
+			}
+			if busy > 0 {
+				inside := 0
+				for _, e := range r.Events {
+					switch e.Kind {
+					case "effect":
+						if inside > 0 && ob {
+							fs = append(fs, e1.Fail("C11|"+fam+"|effect-overlap", "two evaluations of the effect ran at the same time although both run on the one goroutine of the ObserveOn handler (each keeps it busy for %v)", busy))
+						}
+						inside++
+					case "effect-end":
+						inside--
+					}
+				}
 			}
 			caller := ""
 			thr := map[string]string{}
@@ -363,6 +400,9 @@ func scenarios(tier string) []*vsched.Scenario {
 		}
 	}
 	out = append(out, handlerScenario(true, true, 3, 3, 1))
+	for _, busy := range []time.Duration{300 * time.Millisecond, 3 * time.Second, 10 * time.Minute} {
+		out = append(out, slowHandlerScenario(true, true, 3, 1, busy, 1), slowHandlerScenario(true, false, 3, 1, busy, 1), slowHandlerScenario(false, true, 3, 1, busy, 1))
+	}
 	for _, ob := range []bool{false, true} {
 		for _, sub := range []bool{false, true} {
 			out = append(out, noOnNextScenario(ob, sub, b))
